@@ -125,9 +125,28 @@ def check_sf(ctx, case):
         kwargs['guesses'] = guesses
     if words is not None:
         kwargs['words'] = words
-    sf = must(case, '%s.%s(%s)' % (cipher, name, sorted(kwargs)), klass, **kwargs)
-    full_sf = klass()
-    meta = {tag: data.astype(case['dtype'])}
+    # metadata names: default tags or custom ones, plus decoy entries that a trace set may also carry (the selection function receives ALL metadata)
+    data_tag = case.get('data_tag') or tag
+    key_tag = case.get('key_tag') or 'key'
+    tagkw = {}
+    if case.get('data_tag'):
+        tagkw[tag + '_tag'] = data_tag
+    if case.get('key_tag'):
+        tagkw['key_tag'] = key_tag
+    sf = must(case, '%s.%s(%s)' % (cipher, name, sorted(kwargs) + sorted(tagkw)), klass, **kwargs, **tagkw)
+    full_sf = klass(**tagkw)
+    arr = data.astype(case['dtype'])
+    meta = {data_tag: arr}
+    for extra in case.get('extra_meta') or []:
+        if extra not in meta:
+            meta[extra] = np.roll(arr, 1, axis=-1) ^ 0x33          # decoy with the same shape and other content
+    if case.get('prime'):
+        # an earlier call with the same array object and other contents, then overwritten in place
+        buf = arr.copy()
+        buf[...] = np.roll(arr, 2, axis=-1)
+        must(case, 'selection function priming call', sf, **dict(meta, **{data_tag: buf}))
+        buf[...] = arr
+        meta[data_tag] = buf
     out = must(case, 'selection function call', sf, **meta)
     full = must(case, 'default selection function call', full_sf, **meta)
     n = len(inputs)
@@ -152,7 +171,11 @@ def check_sf(ctx, case):
                 raise Violation('%s %s: guess %d of trace %d is not the targeted computation with that guess (got %s expected %s)' % (
                     cipher, name, g, t, full[t, g].tolist(), e), case)
     # (3) expected key and the real cipher state under the true key
-    ek = must(case, 'compute_expected_key', sf.compute_expected_key, key=key)
+    kmeta = {key_tag: key}
+    for extra in case.get('extra_meta') or []:
+        if extra not in kmeta and extra in ('key', 'data', 'foo'):
+            kmeta[extra] = np.roll(key, 1) ^ 0x55
+    ek = must(case, 'compute_expected_key', sf.compute_expected_key, **kmeta)
     if list(map(int, np.asarray(ek).reshape(-1))) != list(map(int, exp_key)):
         raise Violation('%s %s: compute_expected_key differs from the reference %s round key' % (cipher, name, 'first/last'), case)
     for t in range(n):
@@ -166,7 +189,8 @@ def check_sf(ctx, case):
             raise Violation('%s %s: hypothesis at the expected key differs from the real cipher state (trace %d: got %s, real %s)' % (cipher, name, t, got, list(real)), case)
     nontrivial = words is not None or guesses is not None or (cipher == 'aes' and len(key) != 16)
     ctx.case(case, nontrivial, ['%s.%s' % (cipher, name), 'words:' + type(words).__name__, 'guesses:' + ('default' if guesses is None else type(guesses).__name__),
-                                'keysize:%d' % len(key)] + (['traces==guesses'] if n == len(g_list) else []))
+                                'keysize:%d' % len(key)] + (['traces==guesses'] if n == len(g_list) else []) + (['custom_tags'] if tagkw else [])
+             + (['decoy_metadata:' + '+'.join(sorted(case.get('extra_meta')))] if case.get('extra_meta') else []) + (['same_array_reused'] if case.get('prime') else []))
 
 
 @st.composite
@@ -201,7 +225,9 @@ def sf_cases(draw, cipher, name):
     else:
         guesses = np.array(draw(st.lists(st.integers(0, gmax - 1), min_size=n, max_size=n)), dtype='uint8')   # traces == guesses
     return {'kind': 'sf', 'cipher': cipher, 'class': name, 'key': key, 'inputs': inputs, 'words': words, 'guesses': guesses,
-            'dtype': draw(st.sampled_from(['uint8', 'uint8', 'int16', 'int64'])), 'all_guesses': draw(st.integers(0, 9)) == 0}
+            'dtype': draw(st.sampled_from(['uint8', 'uint8', 'int16', 'int64'])), 'all_guesses': draw(st.integers(0, 9)) == 0,
+            'data_tag': draw(st.sampled_from([None, None, 'pt', 'data', 'input'])), 'key_tag': draw(st.sampled_from([None, None, 'k', 'masterkey'])),
+            'extra_meta': draw(st.lists(st.sampled_from(['data', 'key', 'plaintext', 'ciphertext', 'foo']), max_size=3, unique=True)), 'prime': draw(st.booleans())}
 
 
 def unit_class(ctx, cipher, names, n):
